@@ -1,9 +1,15 @@
 package checks
 
 import (
+	"encoding/json"
 	"fmt"
+	"os"
+	"os/exec"
+	"path/filepath"
 	"sort"
 	"strings"
+	"sync"
+	"time"
 
 	"verif/corpus"
 	"verif/symgo"
@@ -130,7 +136,7 @@ func C10(c *Ctx) int {
 				c.HandleGenCex(o, it, r)
 			}
 			// whole-language product for the default mode of selected items
-			prodItems := map[string]bool{"L-kw1": true, "L-ovl": true, "L-tri": true, "L-ng7": true, "L-mode1": true, "L-act-poppush": true}
+			prodItems := map[string]bool{"L-nullbody": true, "L-kw1": true, "L-ovl": true, "L-tri": true, "L-ng7": true, "L-mode1": true, "L-act-poppush": true}
 			for _, it := range items2 {
 				if !(it.ExitOK && it.Files) {
 					continue
@@ -141,6 +147,7 @@ func C10(c *Ctx) int {
 			}
 		}
 	}
+	c.parserTables(o, byName)
 	c.ValidateSamples(o, byName, 4)
 	o.Assumptions = []string{"row invariant assumed by PushRuneUnit/FindUnit (sorted, disjoint, B<=E; pairs behind an in-range index) is what TableRoundTrip and the per-item differentials (C01, C02) establish for emitted tables",
 		"table layout taken from the documentation comments in emit_parser.go / emit_lexer.go"}
@@ -216,4 +223,245 @@ func (c *Ctx) lexProductMode(o *Outcome, prog *symgo.Program, it *GenItem, mi in
 	if !closed {
 		o.Inconclusive = append(o.Inconclusive, fmt.Sprintf("gen.Product[%s,mode=%d]: more than %d pairs, set not closed", it.Name, mi, maxPairs))
 	}
+}
+
+// parserTables: for parser corpus items the emitted _actions/_goto/_rules/
+// _termCounts must decode (through the emitted _Find) to the automaton the
+// generator constructed, for every state and every int32 key.
+func (c *Ctx) parserTables(o *Outcome, byName map[string]*GenItem) {
+	var gs []*corpus.Grammar
+	gs = append(gs, corpus.ParserLanguageAll(c.Thorough())...)
+	gs = append(gs, corpus.ParserRecovery()...)
+	if c.Thorough() {
+		gs = append(gs, corpus.ParserConflicts()...)
+		gs = append(gs, corpus.ParserPrecedence()...)
+	} else {
+		gs = append(gs, corpus.ParserPrecedence()[:4]...)
+	}
+	items, err := c.Generate(gs, nil)
+	if err != nil {
+		o.Broken = append(o.Broken, "parser tables: "+err.Error())
+		return
+	}
+	dumps, err := c.DumpTables(items)
+	if err != nil {
+		o.Broken = append(o.Broken, "parser tables: "+err.Error())
+		return
+	}
+	var ready []*GenItem
+	for _, it := range items {
+		if !(it.ExitOK && it.Files) {
+			continue
+		}
+		d := dumps[it.Name]
+		if d == nil || !d.OK {
+			o.Broken = append(o.Broken, "parser tables: no automaton dumped for "+it.Name+" although lox generated it")
+			continue
+		}
+		if d.Multi > 0 {
+			o.Violations = append(o.Violations, fmt.Sprintf("VIOLATION property=C10 replay=%s", c.SaveReplay("unresolved-cell-emitted-"+it.Name,
+				map[string]any{"item": it.Name, "what": "lox generated code although the constructed table has cells with more than one action", "cells": d.Multi})))
+			continue
+		}
+		os.WriteFile(filepath.Join(it.Dir, "zz_table_h.go"), []byte(tableHarnessGo(it.Pkg, d)), 0644)
+		ready = append(ready, it)
+	}
+	prog, err := c.LoadGen()
+	if err != nil {
+		o.Broken = append(o.Broken, "parser tables: load: "+err.Error())
+		return
+	}
+	var mu sync.Mutex
+	var wg sync.WaitGroup
+	sem := make(chan bool, 4)
+	for _, it := range ready {
+		d := dumps[it.Name]
+		for tbl, reach := range [][]string{{"action", "none"}, {"none"}, {"prod"}} {
+			if tbl == 1 && len(d.Gotos) > 0 {
+				reach = []string{"goto", "none"}
+			}
+			wg.Add(1)
+			sem <- true
+			go func(it *GenItem, tbl int, reach []string) {
+				defer wg.Done()
+				defer func() { <-sem }()
+				h := Harness{Name: fmt.Sprintf("gen.ParserTable[%s,%s]", it.Name, []string{"actions", "goto", "productions"}[tbl]), Func: "H_ParserTable", Quiet: true,
+					Params: map[string]int{"table": tbl}, Reach: reach, Workers: 4,
+					Bounds: fmt.Sprintf("every state of the item (%d) and every int32 key; expectation = the automaton dumped from the generator's memory (%d actions, %d gotos, %d productions)", d.States, len(d.Actions), len(d.Gotos), len(d.Prods))}
+				r, err := c.RunGenHarness(prog, it, h)
+				mu.Lock()
+				defer mu.Unlock()
+				if err != nil {
+					o.Broken = append(o.Broken, err.Error())
+					return
+				}
+				o.Add(r)
+				byName[r.H.Name] = it
+				if len(r.Rep.Cex) > 0 {
+					mu.Unlock()
+					c.HandleGenCex(o, it, r)
+					mu.Lock()
+				}
+			}(it, tbl, reach)
+		}
+	}
+	wg.Wait()
+	if o.Extra == nil {
+		o.Extra = map[string]any{}
+	}
+	o.Extra["parser_items_with_table_decode_check"] = len(ready)
+}
+
+// TableDump mirrors vTableDump of harness/repo/codegen_dump_h.go.
+type TableDump struct {
+	OK        bool
+	Terminals []string
+	Rules     []string
+	Prods     [][2]int
+	States    int
+	Actions   [][4]int
+	Multi     int
+	Gotos     [][3]int
+}
+
+// DumpTables runs /repo's real front end (natively, built from the working tree
+// with the harness overlay) on the .lox files of the items and returns the
+// automaton it constructs for each.
+func (c *Ctx) DumpTables(items []*GenItem) (map[string]*TableDump, error) {
+	dir, err := os.MkdirTemp(c.Scratch, "dump-")
+	if err != nil {
+		return nil, err
+	}
+	virt, err := repoOverlay()
+	if err != nil {
+		return nil, err
+	}
+	repl := map[string]string{}
+	for v, real := range virt {
+		repl[v] = real
+	}
+	vrtFile := filepath.Join(dir, "vrt.go")
+	os.WriteFile(vrtFile, []byte(symgo.VrtSource), 0644)
+	repl[filepath.Join(RepoDir, "zz_verif/vrt/vrt.go")] = vrtFile
+	testFile := filepath.Join(dir, "dump_test.go")
+	os.WriteFile(testFile, []byte("package codegen\n\nimport \"testing\"\n\nfunc TestVerifDump(t *testing.T) { VDumpTables() }\n"), 0644)
+	repl[filepath.Join(RepoDir, "internal/codegen/zz_verif_dump_test.go")] = testFile
+	ov, _ := json.Marshal(map[string]any{"Replace": repl})
+	ovFile := filepath.Join(dir, "overlay.json")
+	os.WriteFile(ovFile, ov, 0644)
+	bin := filepath.Join(dir, "dump.test")
+	build := exec.Command("go", "test", "-c", "-vet=off", "-o", bin, "-overlay", ovFile, "./internal/codegen")
+	build.Dir = RepoDir
+	build.Env = goEnv()
+	if out, err := runTimeout(build, 5*time.Minute); err != nil {
+		return nil, fmt.Errorf("building the table dumper: %v\n%s", err, firstN(string(out), 800))
+	}
+	var dirs []string
+	for _, it := range items {
+		if it.ExitOK && it.Files {
+			dirs = append(dirs, it.Dir)
+		}
+	}
+	cmd := exec.Command(bin, "-test.run", "^TestVerifDump$", "-test.timeout", "300s")
+	cmd.Dir = c.Scratch
+	cmd.Env = append(goEnv(), "VERIF_DUMP_DIRS="+strings.Join(dirs, ":"))
+	if out, err := runTimeout(cmd, 6*time.Minute); err != nil {
+		return nil, fmt.Errorf("running the table dumper: %v\n%s", err, firstN(string(out), 800))
+	}
+	res := map[string]*TableDump{}
+	for _, it := range items {
+		data, err := os.ReadFile(filepath.Join(it.Dir, "zz_table.json"))
+		if err != nil {
+			continue
+		}
+		d := &TableDump{}
+		if json.Unmarshal(data, d) == nil {
+			res[it.Name] = d
+		}
+		os.Remove(filepath.Join(it.Dir, "zz_table.json"))
+	}
+	return res, nil
+}
+
+// tableHarnessGo renders the harness that compares the emitted parser tables
+// of one item with the dumped automaton.
+func tableHarnessGo(pkg string, d *TableDump) string {
+	var sb strings.Builder
+	fmt.Fprintf(&sb, "package %s\n\nimport (\n\t\"math\"\n\n\t\"vgen/vrt\"\n)\n\n", pkg)
+	fmt.Fprintf(&sb, "const vTblStates = %d\n\n", d.States)
+	sb.WriteString("// state, terminal, kind (0 shift, 1 reduce, 2 accept), state or production\nvar vTblActs = [][4]int32{\n")
+	for _, a := range d.Actions {
+		fmt.Fprintf(&sb, "\t{%d, %d, %d, %d},\n", a[0], a[1], a[2], a[3])
+	}
+	sb.WriteString("}\n\n// state, rule, target\nvar vTblGotos = [][3]int32{\n")
+	for _, g := range d.Gotos {
+		fmt.Fprintf(&sb, "\t{%d, %d, %d},\n", g[0], g[1], g[2])
+	}
+	sb.WriteString("}\n\n// rule, number of terms\nvar vTblProds = [][2]int32{\n")
+	for _, p := range d.Prods {
+		fmt.Fprintf(&sb, "\t{%d, %d},\n", p[0], p[1])
+	}
+	sb.WriteString(`}
+
+// H_ParserTable: the emitted _actions / _goto / _rules / _termCounts decode,
+// through the emitted _Find, to exactly the automaton the generator constructed:
+// for every state and every int32 key (terminals, rules, and keys that are
+// neither) the decoded cell is the constructed one, and absent where the
+// automaton has none.
+func H_ParserTable() {
+	s := vrt.Int32("s")
+	x := vrt.Int32("x")
+	vrt.Assume(vrt.And(s >= 0, s < vTblStates))
+	switch vrt.Param("table", 0) {
+	case 0:
+		got, ok := _Find(_actions, s, x)
+		hit := false
+		for _, e := range vTblActs {
+			if s == e[0] && x == e[1] {
+				hit = true
+				want := e[3]
+				switch e[2] {
+				case 1:
+					want = -e[3]
+				case 2:
+					want = math.MaxInt32
+				}
+				vrt.Assert(ok, "constructed-action-is-in-the-emitted-table")
+				vrt.Assert(got == want, "emitted-action-decodes-to-the-constructed-one")
+				vrt.Reach("action")
+				break
+			}
+		}
+		if !hit {
+			vrt.Assert(!ok, "no-emitted-action-where-the-automaton-has-none")
+			vrt.Reach("none")
+		}
+	case 1:
+		got, ok := _Find(_goto, s, x)
+		hit := false
+		for _, e := range vTblGotos {
+			if s == e[0] && x == e[1] {
+				hit = true
+				vrt.Assert(ok, "constructed-goto-is-in-the-emitted-table")
+				vrt.Assert(got == e[2], "emitted-goto-decodes-to-the-constructed-one")
+				vrt.Reach("goto")
+				break
+			}
+		}
+		if !hit {
+			vrt.Assert(!ok, "no-emitted-goto-where-the-automaton-has-none")
+			vrt.Reach("none")
+		}
+	default:
+		vrt.Assert(len(_rules) == len(vTblProds) && len(_termCounts) == len(vTblProds), "one-entry-per-production")
+		p := vrt.Int("p")
+		vrt.Assume(vrt.And(p >= 0, p < len(vTblProds)))
+		p = vrt.Concretize(p)
+		vrt.Assert(_rules[p] == vTblProds[p][0], "emitted-rule-of-production")
+		vrt.Assert(_termCounts[p] == vTblProds[p][1], "emitted-length-of-production")
+		vrt.Reach("prod")
+	}
+}
+`)
+	return sb.String()
 }
